@@ -22,6 +22,18 @@ class BudgetExceeded(Exception):
     pass
 
 
+def _same_spec(a, b):
+    """bin specifications compared value by value (dicts, lists of dicts, numpy scalars)"""
+    if isinstance(a, dict) and isinstance(b, dict):
+        return set(a) == set(b) and all(_same_spec(a[k], b[k]) for k in a)
+    if isinstance(a, (list, tuple)) and isinstance(b, (list, tuple)):
+        return len(a) == len(b) and all(_same_spec(x, y) for x, y in zip(a, b))
+    try:
+        return bool(a == b) or (a != a and b != b)
+    except Exception:
+        return False
+
+
 class Recorder:
     def __init__(self, gamma, budget=1024, tmpdir=None):
         self.g = gamma
@@ -86,13 +98,64 @@ class Recorder:
         return f
 
     # ---------------------------------------------------------------- one step
+    def accessors(self, h, op):
+        """the scalar look-up methods of the read-only API, answered by the library (spec: HgViews!AccExpect)"""
+        from .project import num as _num
+
+        P_ = self.slot_pi.get(op["a"], self.pi)
+        pos = P_.pos
+        opt = lambda v, f: [] if v is None else [f(v)]  # noqa: E731
+        val = lambda a: a() if callable(a) else a  # noqa: E731
+        xs = [self.g.pos(x) for x in op.get("xs", [])]
+        ks = list(op.get("ks", []))
+        k = h.name
+        if k == "Bin":
+            return {"num": int(val(h.num)), "size": int(val(h.size)), "binx": [int(h.bin(x)) for x in xs],
+                    "underx": [bool(h.under(x)) for x in xs], "overx": [bool(h.over(x)) for x in xs],
+                    "nanx": [bool(h.nan(x)) for x in xs], "ranges": [[pos(v) for v in h.range(i)] for i in h.indexes]}
+        if k == "SparselyBin":
+            return {"numFilled": int(val(h.numFilled)), "size": int(val(h.size)), "num": int(val(h.num)),
+                    "minBin": opt(h.minBin, int), "maxBin": opt(h.maxBin, int), "low": opt(h.low, pos), "high": opt(h.high, pos),
+                    "indexes": [int(i) for i in h.indexes], "binx": [int(h.bin(x)) for x in xs],
+                    "nanx": [bool(h.nan(x)) for x in xs], "ranges": [[pos(v) for v in h.range(i)] for i in ks],
+                    "atent": [opt(h.at(i), lambda b: _num(b.entries)) for i in ks]}
+        if k == "CentrallyBin":
+            cs = list(h.centers)
+            return {"centers": [pos(c) for c in cs], "nb": int(val(h.n_bins)), "indexx": [int(h.index(x)) for x in xs],
+                    # (CentrallyBin.value(x) cannot be called: the instance attribute `value`, the template,
+                    # shadows the method)
+                    "centerx": [pos(h.center(x)) for x in xs],
+                    "nanx": [bool(h.nan(x)) for x in xs],
+                    "neighbors": [[opt(v, pos) for v in h.neighbors(c)] for c in cs],
+                    "ranges": [[pos(v) for v in h.range(c)] for c in cs]}
+        if k in ("IrregularlyBin", "Stack"):
+            return {"thresholds": [pos(t) for t in h.thresholds], "nb": len(h.thresholds),
+                    "values": [_num(v.entries) for v in h.values]}
+        if k == "Select":
+            try:
+                fp = [_num(val(h.fractionPassing))]
+            except ZeroDivisionError:
+                fp = []
+            return {"fractionPassing": fp}
+        if k == "Fraction":
+            return {"numerator": _num(h.numerator.entries), "denominator": _num(h.denominator.entries)}
+        if k == "Categorize":
+            return {"size": int(val(h.size)), "keys": [str(x) for x in h.keys], "values": len(h.values),
+                    "getent": [opt(h.get(key), lambda b: _num(b.entries)) for key in ks]}
+        if k in ("Label", "UntypedLabel"):
+            return {"size": int(val(h.size)), "keys": [str(x) for x in h.keys],
+                    "getent": [opt(h.get(key), lambda b: _num(b.entries)) for key in ks]}
+        if k in ("Index", "Branch"):
+            return {"size": int(val(h.size)), "getent": [opt(h.get(i), lambda b: _num(b.entries)) for i in ks]}
+        return {}
+
     def step(self, op):
         import histogrammar as hg
 
         ev = dict(op)
         kind = op["op"]
         # an operand slot that does not exist (because an earlier call raised) makes the step meaningless
-        for key in ("a", "b") + (("s",) if kind not in ("New", "NewShared", "NewDefault", "MH") else ()):
+        for key in ("a", "b") + (("s",) if kind not in ("New", "NewShared", "NewDefault", "NewConv", "MH") else ()):
             if key in op and op[key] not in self.objs:
                 return None
         if any(s not in self.objs for s in op.get("srcs", [])):
@@ -128,7 +191,7 @@ class Recorder:
                     cs = name.split(":")
                     arg["specs"][name] = ([FR.concretise_spec(x, c) for x, c in zip(sp, cs)] if isinstance(sp, list)
                                           else FR.concretise_spec(sp, cs[0]))
-        elif kind in ("New", "NewShared", "NewDefault"):
+        elif kind in ("New", "NewShared", "NewDefault", "NewConv"):
             B.check_exact(op["d"], self.g)  # the constructors themselves are library code: called inside the try
         # ---- execute: only calls into the library
         try:
@@ -138,6 +201,8 @@ class Recorder:
                 O[op["s"]] = B.build(op["d"], self.g, shared={})
             elif kind == "NewDefault":
                 O[op["s"]] = B.build_default(op["d"], self.g)
+            elif kind == "NewConv":
+                O[op["s"]] = B.build_conv(op["d"], self.g)
             elif kind == "Fill":
                 O[op["s"]].fill(arg["x"], arg["w"])
             elif kind == "FillNoW":
@@ -237,15 +302,22 @@ class Recorder:
                 if op.get("reuse"):
                     # a second frame binned with what the first call returned
                     feats0, bspecs0, taxis0, vdt0 = self.mh_ret[op["reuse"]]
-                    kw = dict(features=feats0, bin_specs=bspecs0, var_dtype=vdt0, binning=op["binning"], ret_specs=True)
+                    import copy as _copy
+
+                    # (the callee gets its own copies: what it was given is compared with what it returns)
+                    kw = dict(features=list(feats0), bin_specs=_copy.deepcopy(bspecs0), var_dtype=dict(vdt0),
+                              binning=op["binning"], ret_specs=True)
                     if taxis0:
                         kw["time_axis"] = taxis0
-                extra["specs"], extra["dts"], extra["nfeat"] = {}, {}, False
+                extra["specs"], extra["dts"], extra["nfeat"], extra["kept"] = {}, {}, False, True
                 from histogrammar.dfinterface.make_histograms import make_histograms
 
                 hists, feats, bspecs, taxis, vdt = make_histograms(arg["df"], **kw)
                 name = ":".join(op["cols"])
                 extra["nfeat"] = name in hists and all(float(h.entries) == len(op["rows"]) for h in hists.values())
+                if op.get("reuse"):
+                    # binned with what it was given: every specification passed in comes back unchanged
+                    extra["kept"] = all(k in bspecs and _same_spec(bspecs[k], v) for k, v in bspecs0.items())
                 extra["specs"] = FR.abstract_specs(bspecs)
                 extra["dts"] = {c: FR.DTYPES[c] for c in op["cols"]}
                 O[op["t"]] = hists[name]
@@ -297,6 +369,8 @@ class Recorder:
                 else:
                     res["projxm"] = {str(int(k)): _num(v.entries) for k, v in px.bins.items()}
                     res["projym"] = {str(int(k)): _num(v.entries) for k, v in py.bins.items()}
+            elif kind == "Acc":
+                extra["res"] = self.accessors(O[op["a"]], op)
             elif kind == "Doc":
                 from .doc import tag
 
@@ -329,7 +403,8 @@ class Recorder:
             extra.setdefault("specs", {})
             extra.setdefault("dts", {c: "float" for c in op["cols"]})
             extra.setdefault("nfeat", False)
-        if kind in ("View", "CatView", "Grid2D") and "res" not in extra:
+            extra.setdefault("kept", True)
+        if kind in ("View", "CatView", "Grid2D", "Acc") and "res" not in extra:
             extra["res"] = {}
         if kind == "Doc" and "doc" not in extra:
             extra["doc"] = {"j": "str", "v": "-"}
